@@ -30,7 +30,79 @@ partial def evalExpr (j : Json) : Except String (Comp GQ) := do
         items := addItem items off c merge
     return .circ m items
 
+/-! ### histories over a pool of circuit objects (`World ℕ GQ`: environments are numbered) -/
+
+/-- a leaf whose matrix is given per environment -/
+def matOfTables (k : ℕ) (tabs : Array (Array (Array GQ))) : Matrix (Fin k) (Fin k) (ℕ → GQ) :=
+  fun i j e => ((tabs.getD e #[]).getD i.val #[]).getD j.val 0
+
+def checkRows (k : ℕ) (rows : Array (Array GQ)) : Except String Unit :=
+  if rows.size ≠ k ∨ rows.any (·.size ≠ k) then throw "bad leaf matrix" else pure ()
+
+def evalOut (w : World ℕ GQ) (i : ℕ) : Json :=
+  let u := observeV w i
+  let rows := u.toArray.map (·.toArray)
+  let flat := (flatten (snapshot w.heap i)).map fun p => Json.arr #[toJson p.1, toJson p.2.1]
+  Json.mkObj [("m", toJson (w.heap.msize i)), ("U", rowsToJson rows), ("flat", Json.arr flat.toArray)]
+
+/-- one request operation; replies `"ok"`, `"rej"` (the model's `Op.ok` is false: the real API asserts)
+or the observation of an `eval` -/
+def histStep (nenv : ℕ) (w : World ℕ GQ) (op : Json) : Except String (World ℕ GQ × Json) := do
+  let structOp (o : Op (ℕ → GQ)) : Except String (World ℕ GQ × Json) :=
+    if o.ok w.heap then pure (wstep w (.struct o), Json.str "ok") else pure (w, Json.str "rej")
+  let ranked (i j : ℕ) : Except String Unit :=
+    if i < w.heap.size ∧ j < w.heap.size ∧ ¬ (w.heap.rank j < w.heap.rank i) then
+      throw "rank discipline violated (harness error)" else pure ()
+  if let .ok m := natOf op "new" then
+    structOp (.new m (← natOf op "rank"))
+  else if let .ok i := natOf op "leaf" then
+    let off ← natOf op "off"
+    let k ← natOf op "k"
+    if let .ok u := op.getObjVal? "U" then
+      let rows ← gqRows u
+      checkRows k rows
+      structOp (.leaf i off k (fun a b _ => (rows.getD a.val #[]).getD b.val 0))
+    else
+      let tabs ← (← arrOf op "Us").mapM gqRows
+      if tabs.size ≠ nenv then throw "one matrix per environment expected"
+      for t in tabs do checkRows k t
+      structOp (.leaf i off k (matOfTables k tabs))
+  else if let .ok i := natOf op "nest" then
+    let j ← natOf op "j"
+    ranked i j
+    structOp (.nest i j (← natOf op "off"))
+  else if let .ok i := natOf op "merge" then
+    let j ← natOf op "j"
+    ranked i j
+    structOp (.merge i j (← natOf op "off"))
+  else if let .ok i := natOf op "barrier" then
+    structOp (.barrier i)
+  else if let .ok i := natOf op "copy" then
+    if i < w.heap.size then pure (wstep w (.copy i), Json.str "ok") else throw "copy of an unknown entry"
+  else if let .ok e := natOf op "set" then
+    if e < nenv then pure (wstep w (.set fun _ => e), Json.str "ok") else throw "unknown environment"
+  else if let .ok i := natOf op "eval" then
+    if i < w.heap.size then pure (w, evalOut w i) else throw "eval of an unknown entry"
+  else throw "unknown operation"
+
+def handleHist (j : Json) : Except String Json := do
+  let ops ← arrOf j "hist"
+  let nenv ← natOf j "envs"
+  if nenv = 0 then throw "no environment"
+  let mut w : World ℕ GQ := ⟨Heap.empty, 0⟩
+  let mut outs : Array Json := #[]
+  for op in ops do
+    let (w', o) ← histStep nenv w op
+    w := w'
+    outs := outs.push o
+  return Json.mkObj [("out", Json.arr outs)]
+
 def handle (j : Json) : Json :=
+  if (j.getObjVal? "hist").isOk then
+    match handleHist j with
+    | .error e => errJson e
+    | .ok r => r
+  else
   match evalExpr j with
   | .error e => errJson e
   | .ok c =>
